@@ -141,8 +141,9 @@ type sched struct {
 	nb      map[string]*int64 // builder invocations per model key
 	inside  map[string]int    // builders currently inside, per model key (for the in-harness overlap assertion)
 	maxIn   map[string]int
-	yield   func() // free-running mode: called at gates to shake the schedule
-	flavour int    // rotates the error flavour of failing builders
+	yield   func()                 // free-running mode: called at gates to shake the schedule
+	freeCmd func(kind string) gcmd // free-running mode: outcome / fault chosen by the driver
+	flavour int                    // rotates the error flavour of failing builders
 	gateLog bool
 	gateSt  bool
 }
@@ -169,6 +170,10 @@ func (s *sched) gate(p, kind, key, v string, ttl int) gcmd {
 	if !s.steer || os.Getenv("VERIF_NOGATE") == kind { // VERIF_NOGATE: binding demonstration (bin/bindingdemo) only
 		if s.yield != nil {
 			s.yield()
+		}
+
+		if s.freeCmd != nil {
+			return s.freeCmd(kind)
 		}
 
 		return gcmd{ok: true}
@@ -356,6 +361,14 @@ func (g *gateRW) Write(ctx context.Context, key []byte, v interface{}) error {
 		return tokErr{tok: "BE:w"}
 	}
 
+	if !g.s.steer {
+		// really concurrent run: the value counts as stored from the moment the write is attempted, so that a reader
+		// that sees it can never be recorded before it
+		g.s.rec(Event{Ev: "beWrite", P: p, K: mk, V: decAny(v), TTL: ttl, C: "ok"})
+
+		return g.inner.Write(ctx, key, v)
+	}
+
 	err := g.inner.Write(ctx, key, v)
 	g.s.rec(Event{Ev: "beWrite", P: p, K: mk, V: decAny(v), TTL: ttl, C: "ok", Err: errTok(err)})
 
@@ -409,6 +422,12 @@ func (g *gateRWOf) Write(ctx context.Context, key []byte, v string) error {
 		g.s.rec(Event{Ev: "beWrite", P: p, K: mk, V: v, TTL: ttl, C: "fault", Err: "BE:w"})
 
 		return tokErr{tok: "BE:w"}
+	}
+
+	if !g.s.steer {
+		g.s.rec(Event{Ev: "beWrite", P: p, K: mk, V: v, TTL: ttl, C: "ok"})
+
+		return g.inner.Write(ctx, key, v)
 	}
 
 	err := g.inner.Write(ctx, key, v)
@@ -489,6 +508,7 @@ type foInst interface {
 	KeyLocks() int
 	ErrsWalk(fn func(k []byte, tok string, e int64))
 	ErrsWrite(ctx context.Context, key []byte, tok string)
+	ErrsDeleteAll()
 	Backend() Backend
 }
 
@@ -556,6 +576,18 @@ func (a *ofFo) ErrsWalk(fn func(k []byte, tok string, e int64)) {
 
 		return nil
 	})
+}
+
+func (a *anyFo) ErrsDeleteAll() {
+	if a.f.Errors != nil {
+		a.f.Errors.DeleteAll(context.Background())
+	}
+}
+
+func (a *ofFo) ErrsDeleteAll() {
+	if a.f.Errors != nil {
+		a.f.Errors.DeleteAll(context.Background())
+	}
 }
 
 func (a *ofFo) ErrsWrite(ctx context.Context, key []byte, tok string) {
